@@ -8,7 +8,9 @@
 (* type names and versions but differ in content - must get, from every    *)
 (* call, exactly what that call yields in a fresh process.                 *)
 (*                                                                         *)
-(* A call is [api, var, loc]: the entry point, the variant of the content  *)
+(* A call is [api, var, dep, loc]: the entry point, the variant of the      *)
+(* content of the target namespace, the variant of the LOOKUP namespace    *)
+(* (the same target files may be read against another lookup directory),   *)
 (* of the namespace (same type names and versions in every variant:        *)
 (* another layout, another constant value, another port-ID, a faulty       *)
 (* definition, a deprecated one), and where the files are: "same" - one    *)
@@ -27,7 +29,9 @@ VARIABLES ph, case, out
 vars == <<ph, case, out>>
 
 Apis == {"namespace", "files", "files-dep-first"}
-Calls == { [api |-> a, var |-> v, loc |-> l] : a \in Apis, v \in Variants, l \in Locs }
+\* the lookup namespace is of the same variant as the target namespace, or of variant 2 / 3 (another layout / constant)
+Calls == { [api |-> a, var |-> v, dep |-> d, loc |-> l] : a \in Apis, v \in Variants, d \in Variants, l \in Locs }
+         \cap { c \in [api : Apis, var : Variants, dep : Variants, loc : Locs] : c.dep = c.var \/ (c.dep \in {2, 3} /\ c.var \in {1, 4}) }
 \* the observation of a call in a fresh process is identified by the call itself
 Alone(c) == c
 Init == ph = 0 /\ case = <<>> /\ out = <<>>
